@@ -1,7 +1,8 @@
 """Shared E2 (kindflow) layer for the token-conservation properties C01, C04, C06, C08, C09, C10."""
 import re
 import grammar
-from sites import SiteEvaluator, outcome_summary
+from sites import SiteEvaluator, outcome_summary, run_function
+from kindflow import Node, Doc
 from framework import AnchorMissing
 
 COMMENT = {'LineComment', 'BlockComment'}
@@ -281,3 +282,35 @@ def linebreak_predicate_obligations(w):
                         'ends a line comment would not be recognised' % (name, 'contains a line break of the Typst lexer' if name == 'has_linebreak' else
                                                                      'number of line breaks of the Typst lexer, CR LF counted once', why), b.loc()))
     return out
+
+
+_SPACE_LEAF = {}
+
+
+def space_leaf_ok(w, fn_short):
+    """does the function map a Space node to exactly hardline (its text has a line break) / space (it has none)?  Any helper the converters hand a
+    Space node to is judged this way (the Space leaf converter of R3, or an extracted helper taking the untyped node), whatever its name."""
+    key = (id(w), fn_short)
+    if key in _SPACE_LEAF:
+        return _SPACE_LEAF[key]
+    _SPACE_LEAF[key] = False
+    bs = [b for b in w.fn_bodies(w.core) if b.short == fn_short and b.def_kind != 'Closure']
+    if len(bs) != 1:
+        return False
+    b = bs[0]
+    ps = [j for j in range(1, b.arg_count + 1) if grammar.ast_type_name(b.locals[j]['ty']) or b.locals[j]['ty']['s'].startswith('&typst_syntax::SyntaxNode')
+          or b.locals[j]['ty']['s'].startswith("&'a typst_syntax::SyntaxNode")]
+    if len(ps) != 1:
+        return False
+    for nl, want in ((True, 'hardline'), (False, 'space')):
+        try:
+            res = run_function(w, b, {ps[0]: Node('parent', 'Space', nl)}, converter_pred=lambda tb: False)
+        except Exception:
+            return False
+        outs = set()
+        for result, events, assumed in res or []:
+            outs.add(tuple(a[0] for a in result.flat() if a[0] != 'nil') if isinstance(result, Doc) else ('?',))
+        if outs != {(want,)}:
+            return False
+    _SPACE_LEAF[key] = True
+    return True
